@@ -280,7 +280,7 @@ func (k msgServer) DepositToTreasury(goCtx context.Context, msg *types.MsgDeposi
 
 	defer telemetry.SetGaugeWithLabels(
 		[]string{types.ModuleName, "deposit_to_treasury"},
-		float32(msg.Amount.Amount.Int64()),
+		float32(msg.Amount.Amount.BigInt().Uint64()),
 		[]metrics.Label{
 			telemetry.NewLabel("tenant_id", strconv.Itoa(int(msg.TenantId))),
 			telemetry.NewLabel("denom", msg.Amount.Denom),
